@@ -229,6 +229,7 @@ class Run:
 
     def __init__(self, prop, tier, level="model_checking"):
         self.prop, self.tier, self.level = prop, tier, level
+        self.write_evidence = True      # a --replay run does not overwrite the evidence of the last full run
         self.seed = seed_from_env()
         self.t0 = time.time()
         self.cov = dict(states=0, transitions=0, traces_validated_against_impl=0, samples=[],
@@ -281,9 +282,10 @@ class Run:
                   violations=len(self.violations))
         if self.known_hits:
             ev["coverage"]["known_findings_observed"] = sorted({k["id"] for k, _ in self.known_hits})
-        os.makedirs(EVID, exist_ok=True)
-        with open(os.path.join(EVID, "%s.json" % self.prop), "w") as f:
-            json.dump(ev, f, indent=1, default=str)
+        if self.write_evidence:
+            os.makedirs(EVID, exist_ok=True)
+            with open(os.path.join(EVID, "%s.json" % self.prop), "w") as f:
+                json.dump(ev, f, indent=1, default=str)
         seen = set()
         for k, what in self.known_hits:
             if k["id"] in seen:
